@@ -58,8 +58,16 @@ where
     /// returns `None`.
     ///
     /// This method never performs any actual allocation.
+    ///
+    /// # Safety
+    ///
+    /// The returned `Gc<T>` dereferences to a `T` that was never constructed. The caller must be
+    /// entitled to a value of type `T`: it must own one (as [`ZstCache::alloc`] and
+    /// [`ZstCache::alloc_static`] do) or otherwise be able to create one. In particular `T` must
+    /// be inhabited, and conjuring an instance must not break an invariant that `T`'s constructors
+    /// protect.
     #[inline]
-    pub fn alloc_zst<T: 'gc>(&self) -> Option<Gc<'gc, T>> {
+    pub unsafe fn alloc_zst<T: 'gc>(&self) -> Option<Gc<'gc, T>> {
         if mem::size_of::<T>() == 0 && mem::align_of::<T>() <= MAX_ALIGN {
             debug_assert!(Gc::as_ptr(self.cached_ptr).align_offset(mem::align_of::<T>()) == 0);
             // SAFETY: The value is zero sized, and this pointer is at least of the correct
@@ -73,7 +81,8 @@ where
     /// Like [`Gc::new`], but returns the cached pointer if possible.
     #[inline]
     pub fn alloc<T: Collect<'gc>>(&self, mc: &Mutation<'gc>, t: T) -> Gc<'gc, T> {
-        if let Some(ptr) = self.alloc_zst() {
+        // SAFETY: we were given a `T`.
+        if let Some(ptr) = unsafe { self.alloc_zst() } {
             ptr
         } else {
             Gc::new(mc, t)
@@ -83,7 +92,8 @@ where
     /// Like [`Gc::new_static`], but returns the cached pointer if possible.
     #[inline]
     pub fn alloc_static<T: 'static>(&self, mc: &Mutation<'gc>, t: T) -> Gc<'gc, T> {
-        if let Some(ptr) = self.alloc_zst() {
+        // SAFETY: we were given a `T`.
+        if let Some(ptr) = unsafe { self.alloc_zst() } {
             ptr
         } else {
             Gc::new_static(mc, t)
